@@ -119,7 +119,7 @@ STD_ALIASES = {'std::size_t': 'size_t', 'std::ptrdiff_t': 'ptrdiff_t', 'std::uin
                'std::memory_order': ('enum', 'std::memory_order'), 'std::align_val_t': 'size_t',
                'std::nullptr_t': ('ptr', ('b', 'void')), 'nullptr_t': ('ptr', ('b', 'void')),
                '__m128i': ('rec', '__m128i'), 'std::max_align_t': ('rec', 'max_align_t'),
-               '__useconds_t': 'unsigned int', '__time_t': 'long', '__syscall_slong_t': 'long', '__pid_t': 'int',
+               '__useconds_t': 'unsigned int', 'clockid_t': 'int', '__clockid_t': 'int', '__time_t': 'long', '__syscall_slong_t': 'long', '__pid_t': 'int',
                'std::uint64_t': 'uint64_t', 'std::uint32_t': 'uint32_t', 'std::uint16_t': 'uint16_t',
                'std::uint8_t': 'uint8_t', 'std::int64_t': 'int64_t', 'std::int32_t': 'int32_t',
                'std::int16_t': 'int16_t', 'std::int8_t': 'int8_t', 'std::ssize_t': 'ssize_t'}
